@@ -36,16 +36,13 @@ def run(ctx):
     rnd = random.Random(ctx.seed)
     rows = ctx.tlc_dump("admission", "AdmissionCases.tla", "Cases_k1.cfg", timeout=600)
     k1 = {json.dumps(r["cell"], sort_keys=True) for r in rows}
-    more = ctx.tlc_dump("admission", "AdmissionCases.tla", "Cases_k2.cfg", timeout=1800, workers=4)
-    more = [r for r in more if json.dumps(r["cell"], sort_keys=True) not in k1]
-    if q:
-        rnd.shuffle(more)
-        more = more[:6000]
-    else:
-        prod = ctx.tlc_dump("admission", "AdmissionCases.tla", "Cases_prod.cfg", timeout=1800, workers=4)
+    if not q:
+        more = ctx.tlc_dump("admission", "AdmissionCases.tla", "Cases_k2.cfg", timeout=3000, workers=4)
+        more = [r for r in more if json.dumps(r["cell"], sort_keys=True) not in k1]
+        prod = ctx.tlc_dump("admission", "AdmissionCases.tla", "Cases_prod.cfg", timeout=3000, workers=4)
         seen = {json.dumps(r["cell"], sort_keys=True) for r in more} | k1
         more += [r for r in prod if json.dumps(r["cell"], sort_keys=True) not in seen]
-    rows += more
+        rows += more
     packs = ctx.tlc_dump("admission", "MCPack.tla", "Cases_pack_q.cfg" if q else "Cases_pack.cfg", timeout=900, workers=4)
     ctx.extra["cells"] = len(rows)
     ctx.extra["pack_cases"] = len(packs)
@@ -55,14 +52,23 @@ def run(ctx):
     json.dump(packs, open(os.path.join(ind, "packs.json"), "w"))
     # 3. the real node
     res = ctx.go_driver("c07admit", "TestDriver", timeout=3000,
-                        env={"VERIF_IN": ind, "VERIF_W1_SHARE": 100, "VERIF_PACKS": 400 if q else 12000,
+                        env={"VERIF_IN": ind, "VERIF_W1_SHARE": 100, "VERIF_WORLDS": 2 if q else 4, "VERIF_PACKS": 400 if q else 12000,
                              "VERIF_MIXES": 80 if q else 1500, "VERIF_NCMIXES": 30 if q else 500})
     ctx.absorb(res)
     # 4. TLC judges the recorded trace against the abstract specification
     trace = os.path.join(res["_out"], "trace.ndjson")
     events = vlib.read_ndjson(trace)
     detail = vlib.read_ndjson(os.path.join(res["_out"], "detail.ndjson"))
-    fails = ctx.trace_judge("admission", "AdmissionTrace.tla", "Trace_Admission.cfg", trace, timeout=3000)
+    fails = []
+    CH = 40000      # one TLC run per 40 000 events keeps the JSON log within a modest heap
+    for lo in range(0, len(events), CH):
+        part = trace
+        if len(events) > CH:
+            part = os.path.join(ctx.work, "trace-part-%d.ndjson" % lo)
+            vlib.write_ndjson(part, events[lo:lo + CH])
+        for f in ctx.trace_judge("admission", "AdmissionTrace.tla", "Trace_Admission.cfg", part, timeout=3000):
+            f["line"] += lo
+            fails.append(f)
     ctx.traces_validated += res.get("traces", 0)
     ctx.extra["trace_events"] = len(events)
     failed_lines = set()
